@@ -1,5 +1,6 @@
 """C04 — query composition: space = AND, ' | ' = OR of alternatives, '\\ ' = literal space."""
 ID = "C04"
+EXTRA_PROPS = ["AndMergeTables"]   # the control flow of AndEngine / OrEngine::match_item as TRANSLATED from src/engine/andor.rs
 N_QUICK, N_THOROUGH = 5000, 150000
 STRICT_MODEL = True
 RULE = ("70% queries rendered from a generated AST (1-4 alternatives x 1-4 terms; terms over {a b c A B 1 ' ^ $ ! \\ | blank(escaped) tab é 中}; "
@@ -272,3 +273,4 @@ def run(tier, seed, replay):
         if bad:
             rc = 1
     return rc
+TECHNIQUE += ' + translator tie: the control flow of AndEngine::match_item (a missing term ends the conjunction, no term is no match) and OrEngine::match_item (first matching alternative) translated from src/engine/andor.rs (and_verdict_is_model, or_verdict_is_model, Props/AndMergeTables.lean)'
